@@ -21,7 +21,15 @@
 // delivered, the position check runs if the position is not the stream's, and the REAL outcome is judged:
 // VIOLATION if a monitor fails or the client ends silently diverged, DRIFT otherwise.
 //
-// Mode `probe` asks the real code which stream-read semantics it has (see fam/mapsub.py).
+// The hook verifGate("map:replied") (build tag verif, installed with centrifuge.VerifSetGate) is the gate "rp": the
+// live reply is enqueued, the buffer is still locked; a delivery made there runs on its own goroutine and must block
+// until the subscriber is released (steps DeliverBlocked / TransStop / Unblock).
+//
+// Every behaviour that does not pass cleanly is executed again on a fresh node (execute): drift counts only when all
+// three executions drift, a violation only when it shows twice with the same signature.
+//
+// Mode `probe` asks the real code which stream-read semantics it has (see fam/mapsub.py); mode `windows` runs the
+// directed schedules for the two narrow windows of the live transition (top probe .. hub registration; buffer locked).
 package main
 
 import (
@@ -41,7 +49,8 @@ import (
 	"verifharness/vh"
 )
 
-const gateTimeout = 5 * time.Second
+// generous: the waits only cost time when something is wrong (or the machine is overloaded)
+const gateTimeout = 15 * time.Second
 
 // ------------------------------------------------------------------ gates
 
@@ -221,6 +230,7 @@ type logEntry struct {
 	ep  int
 	off int
 	key int
+	id  int // operation id of the change
 }
 
 type runner struct {
@@ -254,7 +264,34 @@ type runner struct {
 	real      []frame
 	refreshAt int // index in real frames of the invalidating unsubscribe (-1: none)
 	resubs    int
-	hole      bool // the model recorded a non-contiguous stream read in this behaviour
+	hole      bool           // the model recorded a non-contiguous stream read in this behaviour
+	lastCmd   string         // StateCmd | StreamCmd | JoinCmd: what started the live transition in flight / last finished
+	delivAt   map[int]string // operation id -> where the subscriber was when the change was handed to the node
+	blocked   chan struct{}  // closed when the delivery made while the buffer was locked has returned
+}
+
+// every runner of the process by channel: the verif hook is process wide
+var allRunners sync.Map
+
+// hook is installed with centrifuge.VerifSetGate: "map:replied" = the live reply is enqueued, the subscriber still
+// holds the buffer lock (LockBufferAndReadBuffered .. StopBuffering).
+func hook(point, _ string, ch string) {
+	if point != "map:replied" {
+		return
+	}
+	if v, ok := allRunners.Load(ch); ok {
+		v.(*runner).park("rp")
+	}
+}
+
+func (w *worker) register(r *runner) {
+	w.runners.Store(r.ch, r)
+	allRunners.Store(r.ch, r)
+}
+
+func (w *worker) unregister(r *runner) {
+	w.runners.Delete(r.ch)
+	allRunners.Delete(r.ch)
 }
 
 func (r *runner) chanOpts() centrifuge.MapChannelOptions {
@@ -335,7 +372,7 @@ func (r *runner) park(name string) {
 
 func (r *runner) newGates(posGate string) {
 	r.mu.Lock()
-	r.gates = map[string]*gate{"sr": newGate(), "sp": newGate(), "tp": newGate(), "g1": newGate(), "g3": newGate()}
+	r.gates = map[string]*gate{"sr": newGate(), "sp": newGate(), "tp": newGate(), "g1": newGate(), "g3": newGate(), "rp": newGate()}
 	r.posGate = posGate
 	r.trans = false
 	r.mu.Unlock()
@@ -377,6 +414,8 @@ func (r *runner) waitEvent() string {
 		return "g1"
 	case <-pending("g3"):
 		return "g3"
+	case <-pending("rp"):
+		return "rp"
 	case <-r.cmdDone:
 		return "idle"
 	case <-t:
@@ -821,7 +860,7 @@ func (r *runner) sendSync(req *protocol.SubscribeRequest) bool {
 	case <-time.After(gateTimeout):
 		return false
 	}
-	ok := r.conn.T.WaitFor(3*time.Second, func(rs []*protocol.Reply, closed bool) bool {
+	ok := r.conn.T.WaitFor(10*time.Second, func(rs []*protocol.Reply, closed bool) bool {
 		for _, rep := range rs {
 			if rep.Id == id {
 				return true
@@ -857,7 +896,7 @@ func (r *runner) nextRequest() *protocol.SubscribeRequest {
 // settle waits until everything enqueued has been written and gives the new frames to the reference client.
 func (r *runner) settle() ([]frame, []verdict) {
 	if closed, _ := r.conn.T.Closed(); !closed {
-		r.conn.Barrier(3 * time.Second)
+		r.conn.Barrier(10 * time.Second)
 	}
 	real := r.project()
 	vs := r.feed(real, r.hole)
@@ -880,6 +919,14 @@ func (r *runner) freeRun(maxResub int) ([]verdict, string) {
 		case <-time.After(gateTimeout):
 			return nil, "command in flight did not finish"
 		}
+	}
+	if r.blocked != nil {
+		select {
+		case <-r.blocked:
+		case <-time.After(gateTimeout):
+			return nil, "the delivery made while the buffer was locked never returned"
+		}
+		r.blocked = nil
 	}
 	var all []verdict
 	for round := 0; round < 4; round++ {
@@ -918,8 +965,8 @@ func (r *runner) freeRun(maxResub int) ([]verdict, string) {
 		_, vs := r.settle()
 		all = append(all, vs...)
 		if r.mode != "eph" && r.rc.ph == "live" {
-			// the periodic position check ends a subscription whose position is not the stream's
-			if top, ep := r.brokerPos(); top != r.rc.off || ep != r.rc.epStr {
+			// a subscription of an earlier epoch (Clear) is ended by the periodic position check
+			if _, ep := r.brokerPos(); ep != r.rc.epStr {
 				r.positionTick(500 * time.Millisecond)
 				_, vs := r.settle()
 				all = append(all, vs...)
@@ -932,13 +979,39 @@ func (r *runner) freeRun(maxResub int) ([]verdict, string) {
 	if len(all) > 0 {
 		return all, ""
 	}
-	if r.rc.ph != "live" {
-		return nil, "" // told / gone / stuck: explicit end or no verdict
+	v, problem := r.judge("the real code left the model; the reference client finished the protocol on the real replies, ")
+	if v != nil {
+		return []verdict{*v}, ""
 	}
+	return nil, problem
+}
+
+// transitionKind names the live transition by the command that started it.
+func (r *runner) transitionKind() string {
+	switch r.lastCmd {
+	case "StateCmd":
+		return "state-to-live"
+	case "StreamCmd":
+		return "stream-to-live"
+	case "JoinCmd":
+		return "recovery-join"
+	}
+	return "no-transition"
+}
+
+// judge: nothing is in flight and the client believes it is live - does it hold the broker's state?  The verdict
+// is taken on the real code alone; the signature carries the schedule class (where the subscriber was when the
+// lost change was handed to the node).
+func (r *runner) judge(prefix string) (*verdict, string) {
+	if r.rc.ph != "live" {
+		return nil, "" // told / gone: explicit end
+	}
+	top := 0
 	if r.mode != "eph" {
-		top, ep := r.brokerPos()
-		if top != r.rc.off || ep != r.rc.epStr {
-			return nil, "position differs from the stream's and the position check did not end the subscription"
+		var ep string
+		top, ep = r.brokerPos()
+		if ep != r.rc.epStr {
+			return nil, "the subscription belongs to an earlier epoch and the position check did not end it"
 		}
 	}
 	bs, err := r.brokerState()
@@ -951,21 +1024,166 @@ func (r *runner) freeRun(maxResub int) ([]verdict, string) {
 			want[k] = id
 		}
 	}
-	if fmtMap(want) != fmtMap(r.rc.m) {
-		sig := "unexplained:" + r.mode + ":" + r.kind
-		if r.mode == "eph" {
-			sig = "streamless:unclassified-after-drift"
-		}
-		return []verdict{{"C22", sig, fmt.Sprintf("the real code left the model; the reference client finished the protocol on the real replies, nothing is in flight, the client was not told anything, but it holds %s while the broker state (admitted keys) is %s", fmtMap(r.rc.m), fmtMap(want))}}, ""
+	behind := r.mode != "eph" && !r.filt && top != r.rc.off
+	if fmtMap(want) == fmtMap(r.rc.m) && !behind {
+		return nil, ""
 	}
-	return nil, ""
+	if r.mode == "eph" {
+		return &verdict{"C22", "streamless:unclassified-after-drift", prefix + fmt.Sprintf("nothing is in flight, the client was not told anything, but it holds %s while the broker state (admitted keys) is %s", fmtMap(r.rc.m), fmtMap(want))}, ""
+	}
+	// the newest change of a key the client is wrong about (or, if only the position is behind, the first one after it)
+	lostID := 0
+	for i := len(r.log) - 1; i >= 0 && lostID == 0; i-- {
+		e := r.log[i]
+		if e.ep == r.rc.ep && !r.filteredNow(e.key) && want[e.key] != r.rc.m[e.key] {
+			lostID = e.id
+		}
+	}
+	if lostID == 0 {
+		for _, e := range r.log {
+			if e.ep == r.rc.ep && e.off > r.rc.off {
+				lostID = e.id
+				break
+			}
+		}
+	}
+	kind := r.transitionKind()
+	sig := "unexplained:" + r.mode + ":" + r.kind
+	switch r.delivAt[lostID] {
+	case "sr":
+		sig = kind + ":update-between-state-read-and-top-probe-lost"
+	case "sp", "tp":
+		sig = kind + ":update-between-top-probe-and-subscribe-lost"
+	case "g1":
+		sig = kind + ":update-inside-broker-subscribe-lost"
+	case "g3":
+		sig = kind + ":update-after-stream-read-lost"
+	case "rp":
+		sig = "live-window:update-while-buffer-locked-lost:" + kind
+	case "idle":
+		sig = kind + ":update-after-live-lost"
+	}
+	return &verdict{"C22", sig, prefix + fmt.Sprintf("nothing is in flight, the client was not told anything, but it holds %s at position %d while the broker state (admitted keys) is %s at stream top %d; lost change: operation %d, handed to the node while the subscriber was at %q (%s)",
+		fmtMap(r.rc.m), r.rc.off, fmtMap(want), top, lostID, r.delivAt[lostID], kind)}, ""
 }
 
-func (w *worker) run(bi int, beh []map[string]any, res *vh.Result, maxResub int) {
+// attempt collects what one execution of one behaviour produced (same methods as vh.Result).
+type attempt struct {
+	violations []vh.Violation
+	drifts     []vh.Drift
+	distinct   []string
+	samples    []any
+	completed  int
+}
+
+func (a *attempt) Violate(prop, sig, what string, replay any) {
+	a.violations = append(a.violations, vh.Violation{Prop: prop, Sig: sig, What: what, Replay: replay})
+}
+func (a *attempt) Drift(prop, what string, replay any) {
+	a.drifts = append(a.drifts, vh.Drift{Prop: prop, What: what, Replay: replay})
+}
+func (a *attempt) Distinct(key string) { a.distinct = append(a.distinct, key) }
+func (a *attempt) Sample(s any)        { a.samples = append(a.samples, s) }
+func (a *attempt) Done(_, completed int) {
+	a.completed = completed
+}
+
+func (a *attempt) sigs() string {
+	var ss []string
+	for _, v := range a.violations {
+		ss = append(ss, v.Prop+":"+v.Sig)
+	}
+	sort.Strings(ss)
+	return strings.Join(ss, ",")
+}
+
+// execute runs one behaviour; anything but a clean pass is re-executed on a fresh node (up to two more times):
+// a violation counts only when it shows again with the same signature, a drift only when every execution drifts
+// (marked FLAKY when the executions disagree with each other - timeouts on an overloaded machine).
+func execute(w *worker, liveLimit int, bi int, beh []map[string]any, res *vh.Result, maxResub int) {
+	runOn := func(w *worker, try int) *attempt {
+		a := &attempt{}
+		func() {
+			defer func() {
+				if p := recover(); p != nil {
+					a.Drift("", fmt.Sprintf("panic in behaviour %d: %v", bi, p), nil)
+					a.completed = 0
+				}
+			}()
+			w.run(bi, try, beh, a, maxResub)
+		}()
+		return a
+	}
+	fresh := func(try int) *attempt {
+		w2, err := newWorker(liveLimit)
+		if err != nil {
+			return &attempt{drifts: []vh.Drift{{What: "newWorker: " + err.Error()}}}
+		}
+		defer w2.env.Close()
+		return runOn(w2, try)
+	}
+	a := runOn(w, 0)
+	final := a
+	switch {
+	case len(a.violations) > 0:
+		res.Count("violations_reexecuted", 1)
+		b := fresh(1)
+		if b.sigs() != a.sigs() {
+			c := fresh(2)
+			switch {
+			case c.sigs() == a.sigs():
+				final = c
+			case len(b.violations) == 0 && len(b.drifts) == 0 && len(c.violations) == 0 && len(c.drifts) == 0:
+				res.Count("violations_not_reproduced", 1)
+				final = c // passed twice: the first execution was disturbed
+			default:
+				final = &attempt{drifts: []vh.Drift{{What: fmt.Sprintf("FLAKY behaviour %d: violation %s was not reproduced (second execution: %s / %d drifts, third: %s / %d drifts)", bi, a.sigs(), b.sigs(), len(b.drifts), c.sigs(), len(c.drifts)), Replay: a.violations[0].Replay}}}
+			}
+		}
+	case len(a.drifts) > 0:
+		res.Count("drifts_reexecuted", 1)
+		whats := []string{a.drifts[0].What}
+		for try := 1; try <= 2; try++ {
+			b := fresh(try)
+			if len(b.drifts) == 0 {
+				final = b // a clean pass or a (to be confirmed) violation
+				if len(b.violations) > 0 {
+					c := fresh(try + 1)
+					if c.sigs() != b.sigs() {
+						final = &attempt{drifts: []vh.Drift{{What: fmt.Sprintf("FLAKY behaviour %d: drift, then violation %s, then %s", bi, b.sigs(), c.sigs()), Replay: b.violations[0].Replay}}}
+					}
+				} else {
+					res.Count("drifts_not_reproduced", 1)
+				}
+				break
+			}
+			whats = append(whats, b.drifts[0].What)
+			final = b
+		}
+		if len(final.drifts) > 0 && len(whats) == 3 && !(whats[0] == whats[1] && whats[1] == whats[2]) {
+			final.drifts[0].What = "FLAKY " + final.drifts[0].What
+		}
+	}
+	for _, v := range final.violations {
+		res.Violate(v.Prop, v.Sig, v.What, v.Replay)
+	}
+	for _, d := range final.drifts {
+		res.Drift(d.Prop, d.What, d.Replay)
+	}
+	for _, k := range final.distinct {
+		res.Distinct(k)
+	}
+	for _, x := range final.samples {
+		res.Sample(x)
+	}
+	res.Done(1, final.completed)
+}
+
+func (w *worker) run(bi int, try int, beh []map[string]any, res *attempt, maxResub int) {
 	cfg := vh.Map(beh[0]["cfg"])
-	r := &runner{w: w, ch: fmt.Sprintf("ms%d_%d", vh.Seed(), bi), cfg: cfg, mode: vh.Str(cfg["mode"]), kind: vh.Str(cfg["kind"]),
+	r := &runner{w: w, ch: fmt.Sprintf("ms%d_%d_%d", vh.Seed(), bi, try), cfg: cfg, mode: vh.Str(cfg["mode"]), kind: vh.Str(cfg["kind"]),
 		filt: vh.Bool(cfg["filt"]), sf: vh.Bool(cfg["sf"]), page: vh.Int(cfg["page"]), ssize: vh.Int(cfg["ssize"]),
-		ktag: map[int]string{}, deliveries: map[int]delivery{}, epochs: map[string]int{}, cmdIDs: map[uint32]string{}, refreshAt: -1}
+		ktag: map[int]string{}, deliveries: map[int]delivery{}, epochs: map[string]int{}, cmdIDs: map[uint32]string{}, refreshAt: -1, delivAt: map[int]string{}}
 	for i, t := range vh.List(cfg["ktag"]) {
 		r.ktag[i+1] = vh.Str(t)
 	}
@@ -973,8 +1191,8 @@ func (w *worker) run(bi int, beh []map[string]any, res *vh.Result, maxResub int)
 	if r.kind != "fresh" {
 		r.rc.ph = "init"
 	}
-	w.runners.Store(r.ch, r)
-	defer w.runners.Delete(r.ch)
+	w.register(r)
+	defer w.unregister(r)
 	conn, err := w.env.NewConn("u", centrifuge.ProtocolTypeJSON)
 	if err != nil {
 		res.Drift("", "NewConn: "+err.Error(), nil)
@@ -1074,11 +1292,33 @@ func (w *worker) run(bi int, beh []map[string]any, res *vh.Result, maxResub int)
 			return
 		}
 		if r.mode != "eph" {
-			r.log = append(r.log, logEntry{ep: r.epochNum(ur.Position.Epoch), off: int(ur.Position.Offset), key: key})
+			r.log = append(r.log, logEntry{ep: r.epochNum(ur.Position.Epoch), off: int(ur.Position.Offset), key: key, id: id})
 		}
 		if !r.captured(id) {
 			trouble(fmt.Sprintf("change %d was not handed to the event handler", id))
 		}
+	}
+	// an insufficient-state end runs on its own goroutine: wait for its push when the model has one
+	waitUnsub := func(st, prev map[string]any) {
+		mo, po := modelOut(st), modelOut(prev)
+		if len(mo) <= len(po) || mo[len(mo)-1].T != "unsub" {
+			return
+		}
+		want := 0
+		for _, f := range mo {
+			if f.T == "unsub" {
+				want++
+			}
+		}
+		conn.T.WaitFor(6*time.Second, func(rs []*protocol.Reply, closed bool) bool {
+			n := 0
+			for _, rep := range rs {
+				if rep.Push != nil && rep.Push.Channel == r.ch && rep.Push.Unsubscribe != nil {
+					n++
+				}
+			}
+			return n >= want || closed
+		})
 	}
 	// initial content: keys 1..n0 published once each, delivered to nobody
 	for k := 1; k <= vh.Int(cfg["n0"]) && completed == 1; k++ {
@@ -1132,7 +1372,7 @@ func (w *worker) run(bi int, beh []map[string]any, res *vh.Result, maxResub int)
 			}
 			if r.mode != "eph" {
 				top, ep := r.brokerPos()
-				r.log = append(r.log, logEntry{ep: r.epochNum(ep), off: top, key: key})
+				r.log = append(r.log, logEntry{ep: r.epochNum(ep), off: top, key: key, id: id})
 			}
 		case "StreamExpiry":
 			if !centrifuge.VerifMapSubExpireStream(w.inner, r.ch) {
@@ -1153,33 +1393,56 @@ func (w *worker) run(bi int, beh []map[string]any, res *vh.Result, maxResub int)
 				trouble(fmt.Sprintf("delivery %d not captured", id))
 				break
 			}
+			r.delivAt[id] = vh.Str(prev["pc"])
 			if err := w.gb.handler.HandlePublication(r.ch, d.pub, d.sp, false, nil); err != nil {
 				trouble("deliver: " + err.Error())
 			}
-			// an insufficient-state end runs on its own goroutine: wait for its push when the model has one
-			if mo, po := modelOut(st), modelOut(prev); len(mo) > len(po) && mo[len(mo)-1].T == "unsub" {
-				want := 0
-				for _, f := range mo {
-					if f.T == "unsub" {
-						want++
-					}
-				}
-				conn.T.WaitFor(2*time.Second, func(rs []*protocol.Reply, closed bool) bool {
-					n := 0
-					for _, rep := range rs {
-						if rep.Push != nil && rep.Push.Channel == r.ch && rep.Push.Unsubscribe != nil {
-							n++
-						}
-					}
-					return n >= want || closed
-				})
+			waitUnsub(st, prev)
+		case "DeliverBlocked":
+			// the subscriber is parked at the hook map:replied and holds the buffer lock: the delivery must block in
+			// SyncPublication until StopBuffering
+			id := vh.Int(step["id"])
+			r.mu.Lock()
+			d, ok := r.deliveries[id]
+			delete(r.deliveries, id)
+			r.mu.Unlock()
+			if !ok {
+				trouble(fmt.Sprintf("delivery %d not captured", id))
+				break
 			}
+			r.delivAt[id] = "rp"
+			done := make(chan struct{})
+			r.blocked = done
+			go func() {
+				defer close(done)
+				_ = w.gb.handler.HandlePublication(r.ch, d.pub, d.sp, false, nil)
+			}()
+			select {
+			case <-done:
+				diverged("a positioned delivery made while the live transition holds the buffer lock did not block")
+			case <-time.After(15 * time.Millisecond):
+			}
+		case "Unblock":
+			if r.blocked == nil {
+				trouble("no blocked delivery")
+				break
+			}
+			select {
+			case <-r.blocked:
+				r.blocked = nil
+			case <-time.After(gateTimeout):
+				trouble("the blocked delivery did not return after StopBuffering")
+			}
+			waitUnsub(st, prev)
+		case "TransStop":
+			cont("rp", pcNext)
 		case "StateCmd", "StreamCmd", "JoinCmd":
 			want := map[string]string{"StateCmd": "state", "StreamCmd": "stream", "JoinCmd": "join"}[act]
 			if r.rc.ph != want {
 				diverged(fmt.Sprintf("the model's client sends a %s command, the real client is in phase %q", want, r.rc.ph))
 				break
 			}
+			r.lastCmd = act
 			issue(r.nextRequest(), map[string]string{"StateCmd": "sp", "StreamCmd": "tp", "JoinCmd": "tp"}[act], pcNext)
 		case "StateLast":
 			cont("sr", pcNext)
@@ -1196,11 +1459,11 @@ func (w *worker) run(bi int, beh []map[string]any, res *vh.Result, maxResub int)
 			}
 			cont(from, pcNext)
 			if mo := modelOut(st); len(mo) > 0 && mo[len(mo)-1].T == "disc" {
-				conn.T.WaitFor(2*time.Second, func(_ []*protocol.Reply, closed bool) bool { return closed })
+				conn.T.WaitFor(6*time.Second, func(_ []*protocol.Reply, closed bool) bool { return closed })
 			}
 			nontrivial = true
 		case "PosCheck":
-			if !r.positionTick(2 * time.Second) {
+			if !r.positionTick(6 * time.Second) {
 				diverged("the position check did not end the subscription (no unsubscribe push)")
 			}
 		case "Snapshot":
@@ -1238,7 +1501,7 @@ func (w *worker) run(bi int, beh []map[string]any, res *vh.Result, maxResub int)
 			r.cmdIDs[id] = "refresh"
 			before := len(conn.T.Replies())
 			conn.Do(&protocol.Command{Id: id, SubRefresh: &protocol.SubRefreshRequest{Channel: r.ch, Token: "t"}})
-			ok := conn.T.WaitFor(2*time.Second, func(rs []*protocol.Reply, closed bool) bool {
+			ok := conn.T.WaitFor(6*time.Second, func(rs []*protocol.Reply, closed bool) bool {
 				for i, rep := range rs {
 					if i < before {
 						continue
@@ -1260,7 +1523,21 @@ func (w *worker) run(bi int, beh []map[string]any, res *vh.Result, maxResub int)
 				// C16: a changed server tags filter invalidates the map subscription
 				mo := modelOut(st)
 				expectBadRequest := len(mo) > 0 && mo[len(mo)-1].T == "disc" && mo[len(mo)-1].Code == 3501 // ClientSideRefresh lost by a continuation command (as coded)
-				conn.T.WaitFor(time.Second, func(_ []*protocol.Reply, closed bool) bool { return closed || !expectBadRequest })
+				conn.T.WaitFor(time.Second, func(rs []*protocol.Reply, closed bool) bool {
+					if closed {
+						return true
+					}
+					if expectBadRequest {
+						return false
+					}
+					// the command is answered first, the unsubscribe push follows
+					for i, rep := range rs {
+						if i >= before && rep.Push != nil && rep.Push.Channel == r.ch && rep.Push.Unsubscribe != nil {
+							return true
+						}
+					}
+					return false
+				})
 				real := r.project()
 				if last := real[len(real)-1]; !(last.T == "unsub" && last.Code == 2502) && !(expectBadRequest && last.T == "disc" && last.Code == 3501) {
 					violate(verdict{"C16", "server-filter-change-not-invalidated", fmt.Sprintf("the server tags filter of a live map subscription changed but the connection got %s instead of an unsubscribe with code 2502", vh.J(last))})
@@ -1274,6 +1551,9 @@ func (w *worker) run(bi int, beh []map[string]any, res *vh.Result, maxResub int)
 		}
 		if pcNext != "idle" {
 			continue
+		}
+		if ws := vh.List(st["wire"]); len(ws) > 0 && vh.Bool(vh.Map(ws[0])["blk"]) {
+			continue // StopBuffering released a blocked delivery: it runs now (the model's next step is Unblock)
 		}
 		r.freeAll()
 		real, vs := r.settle()
@@ -1293,9 +1573,9 @@ func (w *worker) run(bi int, beh []map[string]any, res *vh.Result, maxResub int)
 		quiescent := len(vh.List(st["wire"])) == 0 && r.rc.ph == "live" && vh.Str(mcl["ph"]) == "live"
 		if quiescent {
 			msub := vh.Map(st["sub"])
-			posValid := r.mode == "eph" || (vh.Int(msub["ep"]) == vh.Int(st["epoch"]) && vh.Int(msub["pos"]) == vh.Int(st["top"]))
+			posValid := r.mode == "eph" || vh.Int(msub["ep"]) == vh.Int(st["epoch"])
 			if !posValid {
-				continue // not final: the periodic position check (action PosCheck) ends such a subscription
+				continue // not final: the periodic position check (action PosCheck) ends a subscription of an earlier epoch
 			}
 			bs, err := r.brokerState()
 			if err != nil {
@@ -1308,7 +1588,12 @@ func (w *worker) run(bi int, beh []map[string]any, res *vh.Result, maxResub int)
 					want[k] = id
 				}
 			}
-			if fmtMap(want) != fmtMap(r.rc.m) {
+			behind := false
+			if r.mode != "eph" && !r.filt {
+				top, _ := r.brokerPos()
+				behind = top != r.rc.off
+			}
+			if fmtMap(want) != fmtMap(r.rc.m) || behind {
 				hz := map[string]bool{}
 				for _, h := range vh.List(st["hz"]) {
 					hz[vh.Str(h)] = true
@@ -1333,8 +1618,16 @@ func (w *worker) run(bi int, beh []map[string]any, res *vh.Result, maxResub int)
 					}
 				case r.mode != "eph" && hz["hole"]:
 					sig = "stream:non-contiguous-read-accepted:" + r.kind
+				default:
+					if v, _ := r.judge(""); v != nil {
+						violate(*v)
+						break
+					}
 				}
-				violate(verdict{"C22", sig, fmt.Sprintf("nothing is in flight, the client was not told anything, but it holds %s while the broker state (admitted keys) is %s", fmtMap(r.rc.m), fmtMap(want))})
+				if completed == 0 {
+					break
+				}
+				violate(verdict{"C22", sig, fmt.Sprintf("nothing is in flight, the client was not told anything, but it holds %s (position %d) while the broker state (admitted keys) is %s", fmtMap(r.rc.m), r.rc.off, fmtMap(want))})
 				break
 			}
 		}
@@ -1343,6 +1636,12 @@ func (w *worker) run(bi int, beh []map[string]any, res *vh.Result, maxResub int)
 	if r.cmdDone != nil {
 		select {
 		case <-r.cmdDone:
+		case <-time.After(gateTimeout):
+		}
+	}
+	if r.blocked != nil {
+		select {
+		case <-r.blocked:
 		case <-time.After(gateTimeout):
 		}
 	}
@@ -1366,6 +1665,8 @@ func replay(in json.RawMessage, res *vh.Result) error {
 	if err := json.Unmarshal(in, &ri); err != nil {
 		return err
 	}
+	centrifuge.VerifSetGate(hook)
+	defer centrifuge.VerifSetGate(nil)
 	const nw = 8
 	var wg sync.WaitGroup
 	jobs := make(chan int)
@@ -1379,15 +1680,7 @@ func replay(in json.RawMessage, res *vh.Result) error {
 			defer wg.Done()
 			defer w.env.Close()
 			for bi := range jobs {
-				func() {
-					defer func() {
-						if p := recover(); p != nil {
-							res.Drift("", fmt.Sprintf("panic in behaviour %d: %v", bi, p), nil)
-							res.Done(1, 0)
-						}
-					}()
-					w.run(bi, ri.Behaviours[bi], res, ri.MaxResub)
-				}()
+				execute(w, ri.LiveLimit, bi, ri.Behaviours[bi], res, ri.MaxResub)
 			}
 		}()
 	}
@@ -1459,24 +1752,23 @@ func probe(_ json.RawMessage, res *vh.Result) error {
 		defer close(done)
 		conn.Do(&protocol.Command{Id: id2, Subscribe: &protocol.SubscribeRequest{Channel: r2.ch, Type: int32(centrifuge.SubscriptionTypeMap), Phase: centrifuge.MapPhaseState, Limit: 2}})
 	}()
-	for _, want := range []string{"sr", "sp", "g1", "g3", "idle"} {
+	// release every gate the subscriber reaches (a tree that skips one of them is judged by the replay, not here)
+	for {
 		got := r2.waitEvent()
-		if got != want {
+		if got == "idle" || got == "timeout" {
 			r2.freeAll()
-			return fmt.Errorf("probe2: subscriber at %q, expected %q", got, want)
+			break
 		}
-		if want == "g1" {
+		if got == "g1" {
 			d := r2.deliveries[1]
 			if err := w.gb.handler.HandlePublication(r2.ch, d.pub, d.sp, false, nil); err != nil {
 				return err
 			}
 		}
-		if want != "idle" {
-			r2.mu.Lock()
-			g := r2.gates[want]
-			r2.mu.Unlock()
-			g.free()
-		}
+		r2.mu.Lock()
+		g := r2.gates[got]
+		r2.mu.Unlock()
+		g.free()
 	}
 	rep2 := conn.WaitReply(id2, 3*time.Second)
 	if rep2 == nil || rep2.Subscribe == nil {
@@ -1488,4 +1780,215 @@ func probe(_ json.RawMessage, res *vh.Result) error {
 	return nil
 }
 
-func main() { vh.Main(map[string]vh.Mode{"replay": replay, "probe": probe}) }
+// publish makes one change through the node API for the directed schedules (the delivery is captured under id).
+func (r *runner) publish(id, key int) error {
+	r.mu.Lock()
+	r.curID = id
+	r.mu.Unlock()
+	ur, err := r.w.env.Node.MapPublish(context.Background(), r.ch, keyName(key), centrifuge.MapPublishOptions{Data: []byte(strconv.Itoa(id)), Tags: map[string]string{"t": r.ktag[key]}})
+	if err != nil {
+		return err
+	}
+	r.log = append(r.log, logEntry{ep: r.epochNum(ur.Position.Epoch), off: int(ur.Position.Offset), key: key, id: id})
+	if !r.captured(id) {
+		return fmt.Errorf("change %d was not handed to the event handler", id)
+	}
+	return nil
+}
+
+func (r *runner) take(id int) (delivery, bool) {
+	r.mu.Lock()
+	defer r.mu.Unlock()
+	d, ok := r.deliveries[id]
+	delete(r.deliveries, id)
+	return d, ok
+}
+
+// drive issues the reference client's next command and releases every gate the subscriber reaches; when it reaches
+// gate `at` the action runs first.  Reports whether the command finished.
+func (r *runner) drive(at string, action func()) bool {
+	req := r.nextRequest()
+	if req == nil {
+		return false
+	}
+	posGate := "tp"
+	r.lastCmd = map[string]string{"state": "StateCmd", "stream": "StreamCmd", "join": "JoinCmd"}[r.rc.ph]
+	if r.rc.ph == "state" {
+		posGate = "sp"
+	}
+	id := r.conn.NextID()
+	r.newGates(posGate)
+	r.cmdIDs[id] = "sub"
+	r.rc.reqOff = r.rc.off
+	done := make(chan struct{})
+	r.cmdDone = done
+	go func() {
+		defer close(done)
+		r.conn.Do(&protocol.Command{Id: id, Subscribe: req})
+	}()
+	for {
+		ev := r.waitEvent()
+		if ev == "idle" {
+			return true
+		}
+		if ev == "timeout" {
+			r.freeAll()
+			return false
+		}
+		if ev == at {
+			action()
+		}
+		r.mu.Lock()
+		g := r.gates[ev]
+		r.mu.Unlock()
+		g.free()
+	}
+}
+
+// windows: directed schedules for the two windows of the live transition that random behaviours hit only sometimes.
+//
+//	top-probe:  a change is published and handed to the node between the stream top probe of the last state page and
+//	            the hub registration (nobody is subscribed yet: the transition's stream read must catch it up);
+//	lock:<kind>: for each kind of live transition the subscriber is parked at the hook "map:replied" (reply enqueued,
+//	            buffer still locked), a change is handed to the node on another goroutine (it must block on the buffer
+//	            lock), the subscriber is released; the change must reach the client after the reply.
+//
+// The verdict is the convergence monitor on the real code: client map == broker state, position == stream top.
+func windows(_ json.RawMessage, res *vh.Result) error {
+	centrifuge.VerifSetGate(hook)
+	defer centrifuge.VerifSetGate(nil)
+	w, err := newWorker(3)
+	if err != nil {
+		return err
+	}
+	defer w.env.Close()
+	type schedule struct{ name, kind, at string }
+	for i, sc := range []schedule{{"top-probe", "fresh", "sp"}, {"lock:state-to-live", "fresh", "rp"}, {"lock:stream-to-live", "rstream", "rp"}, {"lock:recovery-join", "rlive", "rp"}} {
+		err := func() error {
+			r := &runner{w: w, ch: fmt.Sprintf("win%d_%d", vh.Seed(), i), mode: "per", kind: sc.kind, page: 2, ssize: 4, ktag: map[int]string{1: "keep", 2: "keep"},
+				deliveries: map[int]delivery{}, epochs: map[string]int{}, cmdIDs: map[uint32]string{}, refreshAt: -1, delivAt: map[int]string{}}
+			w.register(r)
+			defer w.unregister(r)
+			conn, err := w.env.NewConn("u", centrifuge.ProtocolTypeJSON)
+			if err != nil {
+				return err
+			}
+			r.conn = conn
+			defer func() { conn.Client.Disconnect(); conn.Cancel() }()
+			if conn.Connect() == nil {
+				return fmt.Errorf("connect failed")
+			}
+			r.registerEpoch(1)
+			r.rc = freshClient()
+			steps := []string{"publish k1 (#1), nobody subscribed"}
+			if err := r.publish(1, 1); err != nil {
+				return err
+			}
+			r.take(1)
+			next := 2
+			if sc.kind != "fresh" {
+				// a client that was subscribed earlier and is up to date here; one more change to recover
+				bs, err := r.brokerState()
+				if err != nil {
+					return err
+				}
+				top, ep := r.brokerPos()
+				c := freshClient()
+				for k, id := range bs {
+					c.m[k] = id
+				}
+				c.off, c.ep, c.epStr, c.first, c.rec = top, r.epochNum(ep), ep, false, true
+				c.ph = map[bool]string{true: "join", false: "stream"}[sc.kind == "rlive"]
+				r.rc = c
+				if err := r.publish(2, 1); err != nil {
+					return err
+				}
+				r.take(2)
+				next = 3
+				steps = append(steps, "client snapshot at the top", "publish k1 (#2), nobody subscribed")
+			}
+			reached, notBlocked := false, false
+			var actErr error
+			finished := r.drive(sc.at, func() {
+				reached = true
+				if actErr = r.publish(next, 2); actErr != nil {
+					return
+				}
+				d, _ := r.take(next)
+				r.delivAt[next] = sc.at
+				if sc.at == "rp" {
+					done := make(chan struct{})
+					r.blocked = done
+					go func() {
+						defer close(done)
+						_ = w.gb.handler.HandlePublication(r.ch, d.pub, d.sp, false, nil)
+					}()
+					select {
+					case <-done:
+						notBlocked = true
+					case <-time.After(30 * time.Millisecond):
+					}
+				} else {
+					_ = w.gb.handler.HandlePublication(r.ch, d.pub, d.sp, false, nil)
+				}
+			})
+			steps = append(steps, fmt.Sprintf("%s command; at gate %q: publish k2 (#%d) and hand it to the node; release", r.lastCmd, sc.at, next))
+			if actErr != nil {
+				return actErr
+			}
+			if r.blocked != nil {
+				select {
+				case <-r.blocked:
+				case <-time.After(gateTimeout):
+					res.Drift("C22", "directed schedule "+sc.name+": the delivery made while the buffer was locked never returned", nil)
+					res.Done(1, 0)
+					return nil
+				}
+			}
+			r.mu.Lock()
+			r.gates = nil
+			r.mu.Unlock()
+			var vs []verdict
+			for j := 0; j < 6; j++ { // finish the protocol if the command did not end live
+				_, v := r.settle()
+				vs = append(vs, v...)
+				req := r.nextRequest()
+				if req == nil || !finished {
+					break
+				}
+				if !r.sendSync(req) {
+					break
+				}
+			}
+			replay := map[string]any{"schedule": sc.name, "steps": steps, "frames": r.project(), "client_map": fmtMap(r.rc.m)}
+			for _, v := range vs {
+				res.Violate(v.prop, v.sig, v.what+" (directed schedule "+sc.name+")", replay)
+			}
+			switch {
+			case !finished || !reached:
+				res.Drift("C22", fmt.Sprintf("directed schedule %s: gate %q reached=%v, command finished=%v", sc.name, sc.at, reached, finished), replay)
+				res.Done(1, 0)
+				return nil
+			case notBlocked:
+				res.Drift("C22", "directed schedule "+sc.name+": the delivery made while the buffer is locked did not block", replay)
+			}
+			v, problem := r.judge("directed schedule " + sc.name + ": ")
+			if v != nil {
+				res.Violate(v.prop, v.sig, v.what, replay)
+			} else if problem != "" {
+				res.Drift("C22", "directed schedule "+sc.name+": "+problem, replay)
+			}
+			res.Distinct(sc.name)
+			res.Done(1, 1)
+			return nil
+		}()
+		if err != nil {
+			return fmt.Errorf("schedule %s: %w", sc.name, err)
+		}
+	}
+	return nil
+}
+
+func main() {
+	vh.Main(map[string]vh.Mode{"replay": replay, "probe": probe, "windows": windows})
+}
